@@ -14,7 +14,7 @@
      Drop/Dup/Reorder/Tamper bookkeeping of the network (the driver's own doing: kind "harness")
    Total: a disagreement prints MISMATCH and the tracked state is resynchronised on the observation. *)
 EXTENDS NasSecureChannel, ChanConcrete, Json
-CONSTANT ConcreteEvery      \* recompute MAC and ciphertext at every k-th event only (1 = always; the quick tier uses 4)
+CONSTANT ConcreteEvery      \* recompute MAC and ciphertext at every k-th event only (1 = always; the quick tier uses 2)
 VARIABLES l, actx, cnet, bad
 TraceLog == ndJsonDeserialize("trace.ndjson")
 tvars == <<sc, rc, net, sent, dlv, rej, budget, wrapped, last, l, actx, cnet, bad>>
